@@ -85,10 +85,18 @@ def op(draw):
     elif k == "memo_ts_resize":
         o["win"] = draw(win_st())
     elif k == "memo_cached":
-        o["args"] = draw(st.sampled_from([[], [1], [2], [1, "a"], [1.0]]))
-        o["kw"] = draw(st.sampled_from([{}, {"x": 1}]))
+        o["args"] = draw(st.sampled_from([[], [1], [2], [1, "a"], [1.0], [-1], [-2]]))
+        o["kw"] = draw(st.sampled_from([{}, {"x": 1}, {"x": 2}]))
     return o
 
+
+# (args, kwargs) pairs: equal hashes (hash(-1) == hash(-2), hash(0) == hash(2**61 - 1)), same keyword names with
+# different values, positional vs keyword
+CONFUSABLE = [
+    [[[-1], {}], [[-2], {}]], [[[0], {}], [[2**61 - 1], {}]], [[[], {"x": 1}], [[], {"x": 2}]],
+    [[[1], {"x": 1}], [[1], {"x": 2}]], [[[1], {}], [[], {"x": 1}]], [[[], {"x": 1}], [[], {"y": 1}]],
+    [[[1, 2], {}], [[2, 1], {}]], [[["a"], {}], [[("a",)], {}]],
+]
 
 READS = ["get_cell", "get_colors", "get_nv", "on_kitty", "get_ratio"]
 
@@ -96,9 +104,12 @@ READS = ["get_cell", "get_colors", "get_nv", "on_kitty", "get_ratio"]
 @st.composite
 def segment(draw):
     """Either one op, or one of the patterns the property is about."""
-    k = draw(st.integers(0, 9))
+    k = draw(st.integers(0, 10))
     if k <= 5:
         return [draw(op())]
+    if k == 10:  # two memoized calls whose argument tuples are distinct but easily confused by a sloppy cache key
+        a, b = draw(st.sampled_from(CONFUSABLE))
+        return [{"op": "memo_cached", "args": a[0], "kw": a[1]}, {"op": "memo_cached", "args": b[0], "kw": b[1]}]
     x = {"op": draw(st.sampled_from(READS))}
     if k == 6:  # disabled -> compute -> enabled -> compute
         return [{"op": "q_off"}, x, {"op": "q_on"}, x]
@@ -362,9 +373,11 @@ def check_history(c, rec):
                     last_ok = (got, epoch_q, enabled)
                 computed_while_disabled |= not enabled
             elif k == "memo_cached":
-                key = (tuple(o["args"]), tuple(o["kw"].items()))
+                margs = [tuple(a) if isinstance(a, list) else a for a in o["args"]]  # (replay files hold lists)
+                key = (tuple(margs), tuple(o["kw"].items()))
                 before = counts["cached"].get(key, 0)
-                v = memo(*o["args"], **o["kw"])
+                v = memo(*margs, **o["kw"])
+                flags.add("memo")
                 after = counts["cached"].get(key, 0)
                 if after > 1 or after - before > (1 if before == 0 else 0):
                     fail(f"memoized body ran {after} times for arguments {key}", {"kind": "memo_rerun"})
@@ -480,8 +493,113 @@ def check_concurrent(c, rec):
         rec.nontriv([sorted(map(tuple, c["threads"])), c["rounds"]])
 
 
+# ------------------------------------------------------------------------------ clause: toggles racing with reads
+
+@st.composite
+def toggle_programs(draw):
+    nthreads = draw(st.integers(2, 3))
+    threads = [[{"op": "q_on"}]]  # thread 0 re-enables queries (they start disabled)
+    if draw(st.booleans()):
+        threads[0].insert(0, {"op": draw(st.sampled_from(READS[:3]))})
+    for _ in range(nthreads - 1):
+        threads.append([{"op": draw(st.sampled_from(READS[:3] + ["get_cell", "get_colors"]))}
+                        for _ in range(draw(st.integers(1, 3)))])
+    prof = draw(prof_st())
+    prof["da1"] = True
+    if draw(st.integers(0, 3)):
+        prof.update(winops16=[20, 10], fg=prof["fg"] or "rgb:ffff/0000/0000", xtversion=prof["xtversion"] or ["paren", "foot", "1.2"])
+    return {"threads": threads, "profile": prof, "win": [draw(st.integers(1, 60)), draw(st.integers(1, 30)), 0, 0],
+            "schedule": draw(st.lists(st.integers(0, 4), min_size=1, max_size=40))}
+
+
+def check_toggle_schedule(c, rec):
+    """enable_queries() racing with reads in other threads, under schedules owned by the harness (scheduling
+    points: every acquire/release of the cell-size lock, the terminal lock and the locks inside utils.cached).
+    Once enable_queries() has returned and every thread is done, no result obtained while queries were disabled
+    may still be served: the three reads must equal a fresh computation with queries enabled."""
+    from ..sched import Deadlock, Scheduler, SLock
+
+    reset_lib()
+    prof = dict(c["profile"], delays=[0.0])
+    simtty.set_winsize(*c["win"])
+    T.reset(prof)
+    sched = Scheduler(c["schedule"])
+    saved = {k: getattr(U, k) for k in ("_tty_lock", "_cell_size_lock", "_cell_size_cache", "get_fg_bg_colors",
+                                        "get_terminal_name_version", "RLock")}
+    n = [0]
+
+    def new_lock():
+        n[0] += 1
+        return SLock(sched, f"cached{n[0]}")
+
+    events = []
+    try:
+        U._tty_lock = SLock(sched, "tty0")
+        U._cell_size_lock = SLock(sched, "cell0")
+        U._cell_size_cache = [0] * 4
+        # the same decorator applied to the same undecorated functions, with its lock made a scheduling point
+        U.RLock = new_lock
+        U.get_fg_bg_colors = U.cached(saved["get_fg_bg_colors"].__wrapped__)
+        U.get_terminal_name_version = U.cached(saved["get_terminal_name_version"].__wrapped__)
+        U.RLock = saved["RLock"]
+        TI.disable_queries()
+
+        def read(k):
+            if k == "get_cell":
+                v = U.get_cell_size()
+                return v and tuple(v)
+            if k == "get_colors":
+                return U.get_fg_bg_colors()
+            return U.get_terminal_name_version()
+
+        def make(name, acts):
+            def run():
+                for a in acts:
+                    events.append((name, a["op"], "start"))
+                    if a["op"] == "q_on":
+                        TI.enable_queries()
+                    else:
+                        read(a["op"])
+                    events.append((name, a["op"], "end"))
+            return run
+
+        for i, acts in enumerate(c["threads"]):
+            sched.spawn(f"T{i}", make(f"T{i}", acts))
+        what = f"threads={c['threads']} schedule={c['schedule']} profile={prof} win={c['win']}"
+        try:
+            sched.run()
+        except Deadlock as e:
+            raise Violation(f"deadlock: {e} [{what}]", {"kind": "deadlock"})
+        for t in sched.threads:
+            if t.exc is not None:
+                raise Violation(f"thread {t.name} raised {type(t.exc).__name__}: {t.exc} [{what}]", {"kind": "thread_exception"})
+        if not U._queries_enabled:
+            raise Violation(f"queries are still disabled after enable_queries() returned [{what}]", {"kind": "not_enabled"})
+        exp = {"get_cell": R.cell_size(prof, c["win"], False, {}, True), "get_colors": R.colors(prof, True),
+               "get_nv": R.name_version(prof, {}, True)}
+        for k in ("get_cell", "get_colors", "get_nv"):
+            got = read(k)
+            if got != exp[k]:
+                raise Violation(f"after enable_queries() had returned (and all threads were done) {k} still returns {got!r}, a fresh "
+                                f"computation with queries enabled gives {exp[k]!r} [{what}]\n  events={events}",
+                                {"kind": "stale_after_enable_concurrent", "read": k})
+    finally:
+        for k, v in saved.items():
+            setattr(U, k, v)
+        T.flush_all()
+        T.unread_bytes()
+    i0 = events.index(("T0", "q_on", "start"))
+    i1 = events.index(("T0", "q_on", "end"))
+    inside = any(e[0] != "T0" for e in events[i0:i1])
+    rec.label("read_inside_enable" if inside else "no_overlap")
+    if inside:
+        rec.nontriv([events])
+
+
 CLAUSES = [
     Clause("history", check_history, cases, budget={"quick": 1500, "thorough": 50000},
            floors={"compute_toggle": 0.03, "disabled_compute_enabled": 0.05}),
     Clause("concurrent", check_concurrent, conc_cases, budget={"quick": 150, "thorough": 3000}, floors={"contended": 0.3}),
+    Clause("toggle_schedules", check_toggle_schedule, toggle_programs, budget={"quick": 400, "thorough": 12000},
+           floors={"read_inside_enable": 0.2}),
 ]
